@@ -39,6 +39,9 @@ func Stream(t *rapid.T, cfg StreamCfg) ([]model.Ev, map[string]bool) {
 	if cfg.MaxDepth == 0 {
 		cfg.MaxDepth = 5
 	}
+	if cfg.MaxDepth < 0 {
+		cfg.MaxDepth = 0 // scalars only
+	}
 	if cfg.Budget == 0 {
 		cfg.Budget = 120
 	}
